@@ -96,7 +96,7 @@ def cases(tier, seed):
             ids = sorted(ids)
         ctx = [[pid, rnd.randrange(3), rnd.choice(lists)] for pid in ids]
         yield dict(served=served, sup=sup, ctx=ctx, seed=seed * 100003 + i,
-                   titles=[rnd.choice(['SRV', 'A', 'SIXTEEN_CHARS_AE', 'x y']),
+                   titles=[rnd.choice(['SRV', 'A', 'SIXTEEN_CHARS_AE', 'x y', ' LEAD']),
                            rnd.choice(['CLI', 'B', 'CALLING_AE_TITLE'])],
                    scu_first=rnd.choice([0, 0, 1, 2]), late_add=rnd.random() < 0.25,
                    appctx=rnd.choice([None, None, '1.2.826.0.1.3680043.8.498.77.1',
@@ -305,6 +305,10 @@ def run_case(case):
             v('peer-saw-protocol-error', e)
         if (p['called'], p['calling']) != (called.strip(), calling.strip()):
             v('ae-titles-not-repeated', 'got %r/%r' % (p['called'], p['calling']))
+        elif (p.get('called_raw'), p.get('calling_raw')) != (rc._ae(called), rc._ae(calling)):
+            # the 16-byte fields themselves, padding included, are what the request carried
+            v('ae-title-fields-not-repeated-byte-for-byte', 'sent %r/%r got %r/%r' % (
+                rc._ae(called), rc._ae(calling), p.get('called_raw'), p.get('calling_raw')))
         if p['app_context'] != appctx:
             v('application-context-not-repeated', 'request named %r, reply names %r' % (
                 appctx, p['app_context']))
